@@ -31,7 +31,7 @@ CONSTANTS
   ResumeKinds,  \* subset of {"msg", "timeout", "expiration", "dial"}
   NodeKinds,    \* subset of {"act", "failact", "split", "wait", "dialwait", "enter"}
   DfltChoices,  \* subset of BOOLEAN: may switch routers lack a default category
-  FaultKinds,   \* subset of {"flow_gone", "parent_gone", "node_gone", "pnode_gone", "wait_gone", "wait_dial", "group_added"} (asset faults between sprints)
+  FaultKinds,   \* subset of {"flow_gone", "parent_gone", "node_gone", "pnode_gone", "wait_gone", "wait_dial", "router_gone", "group_added"} (asset faults between sprints)
   MaxFaults,
   Quirks        \* named deviations of the code from the design, e.g. {"stale_step"}
 
@@ -83,14 +83,15 @@ Gone    == NodeRec("gone", 0, 0, FALSE, 0, 0, FALSE)
 
 \* kind      real definition
 \* act       actions only, one exit (-> d1)
-\* failact   enter_flow of a flow that is not in the assets: fails the run
+\* failact   enter_flow of a flow that is not in the assets: fails the run (whatever comes after it on the node or behind its exit)
 \* split     switch router without wait, exits 1,2 (-> d1,d2), cases e1->1, e2->2, default (if any) -> 2
 \* wait      same router on @input.text behind a msg wait; timeout = 0 (none) or the exit of the timeout category
 \* enter     enter_flow(flow, terminal) + switch on @child.status: completed -> exit 1, otherwise -> exit 2
 \* dialwait  (fault only) the waiting node's wait was replaced by a dial wait
 NodeDefs ==
        {NodeRec("act", a, 0, FALSE, 0, 0, FALSE)     : a \in IF "act" \in NodeKinds THEN Dests ELSE {}}
-  \cup {NodeRec("failact", 0, 0, FALSE, 0, 0, FALSE) : x \in IF "failact" \in NodeKinds THEN {1} ELSE {}}
+  \* (its exit may well lead somewhere: it is never taken)
+  \cup {NodeRec("failact", a, 0, FALSE, 0, 0, FALSE) : a \in IF "failact" \in NodeKinds THEN Dests ELSE {}}
   \cup {NodeRec("split", a[1], a[2], a[3], 0, 0, FALSE) :
            a \in IF "split" \in NodeKinds THEN Dests \X Dests \X DfltChoices ELSE {}}
   \cup {NodeRec("wait", a[1], a[2], a[3], a[4], 0, FALSE) :
@@ -151,13 +152,13 @@ Pick(rs, i, d, mode) ==
 (* wait and a router that found no category save nothing; a timeout saves  *)
 (* the timeout category.  enter_flow routers have no result name.          *)
 (* lastact: "act" nodes save the result `last` := their own name.          *)
-SavesResult(d) == d.kind \in {"split", "wait", "dialwait"} \/ (d.kind = "gone" /\ d.dflt)   \* a waiting node that was edited away had a router
+SavesResult(d) == d.kind \in {"split", "wait", "dialwait"} \/ (d.kind \in {"gone", "act"} /\ d.dflt)   \* a waiting node that was edited away had a router
 ResOf(r) ==
   [n \in Nodes |->
      LET K == {k \in DOMAIN r.path : r.path[k].node = n /\ r.path[k].exit # 0 /\ SavesResult(def[r.flow][n])}
      IN IF K = {} THEN 0 ELSE r.path[CHOOSE k \in K : \A j \in K : j <= k].exit]
 LastActOf(r) ==
-  LET K == {k \in DOMAIN r.path : def[r.flow][r.path[k].node].kind = "act"}
+  LET K == {k \in DOMAIN r.path : def[r.flow][r.path[k].node].kind = "act" /\ ~def[r.flow][r.path[k].node].dflt}
   IN IF K = {} THEN 0 ELSE r.path[CHOOSE k \in K : \A j \in K : j <= k].node
 
 Proj == [status |-> status, err |-> err,
@@ -393,6 +394,8 @@ AssetFault(fk) ==
                                /\ def' = [def EXCEPT ![runs[runs[w].parent].flow][NodeOfLast(runs, runs[w].parent)] = Gone] /\ UNCHANGED gone
        [] fk = "wait_gone" -> def[f][n].kind = "wait" /\ def' = [def EXCEPT ![f][n].kind = "split"] /\ UNCHANGED gone
        [] fk = "wait_dial" -> def[f][n].kind = "wait" /\ def' = [def EXCEPT ![f][n].kind = "dialwait"] /\ UNCHANGED gone
+       \* the waiting node keeps its place but loses its router altogether: a plain actions node (dflt marks: had a router with a result)
+       [] fk = "router_gone" -> def[f][n].kind = "wait" /\ def' = [def EXCEPT ![f][n].kind = "act", ![f][n].dflt = TRUE] /\ UNCHANGED gone
        \* a query-based group that matches the contact appears among the assets: nothing of the state machine changes, the
        \* contact's membership is stale until a sprint re-evaluates it - a REJECTED resume must not be that sprint (Untouched)
        [] fk = "group_added" -> UNCHANGED <<def, gone>>
